@@ -4,3 +4,4 @@ import SV.Props.C04
 import SV.Props.C05
 import SV.Props.C10
 import SV.Props.C11
+import SV.Props.C06
